@@ -29,8 +29,8 @@ CLAIMS = {
             "Decides the structural clauses of the unknown-operator rule: rejection order (reserved first), 4-byte multiplier cap, selector bits, base compared with the budget before multiplying, overflow-checked multiplication in BOTH cost models, 32-bit cap dominating the only Ok(nil), sibling cost constants, and that op_unknown is reachable only through the lenient unknown-operator paths with unchanged arguments. Known finding: classic model uses wrapping_mul.",
             "Trusts rustc's MIR; the numeric value of the add/mul/concat-like formulas is not decided (only which constants they read).",
             "DESIGN.md 4/C09"),
-    "C10": ("table extraction: per-operator sets of named cost constants resolved through the dispatch switch vs. a transcription of the published classic table; constant relations; flag-region placement of NEW_* vs classic constants; formula evaluation against the figures printed in the docs; structural no-shortcut rule for the tree-hash walk",
-            "Decides: all 27 classic rows + 6 interpreter constants equal the published values; documented relations (coinid, BLS siblings, sha256tree per-byte) hold in both models; every NEW_* constant is read only under NEW_COST_MODEL and its counterpart only without it (incl. helper functions and bool-parameter helpers); new-model per-argument terms use max(., limbs); the sha256tree formula reproduces the 4 documented figures and the walk pushes both children of every pair unconditionally with every update checked. Not the new-model constant values (documented only in code) nor that each formula is evaluated correctly on all arguments.",
+    "C10": ("table extraction: per-operator sets of named cost constants resolved through the dispatch switch vs. a transcription of the published classic table; constant relations; flag-region placement of NEW_* vs classic constants; formula evaluation against the figures printed in the docs; structural no-shortcut rule for the tree-hash walk; multiplicand rule over every per-byte cost term",
+            "Decides: all 27 classic rows + 6 interpreter constants equal the published values; documented relations (coinid, BLS siblings, sha256tree per-byte) hold in both models; every NEW_* constant is read only under NEW_COST_MODEL and its counterpart only without it (incl. helper functions and bool-parameter helpers); new-model per-argument terms use max(., limbs); the sha256tree formula reproduces the 4 documented figures and the walk pushes both children of every pair unconditionally with every update checked; every per-byte constant of the operator modules multiplies an input length or a fixed result size, never the length of a default constant or the magnitude of an argument (R10e). Not the new-model constant values (documented only in code) nor that each formula is evaluated correctly on all arguments.",
             "Trusts the transcription in oracle/classic_costs.json (values of the historical clvm cost table) and rustc's constant evaluation.",
             "DESIGN.md 4/C10"),
     "C11": ("effect confinement of NEW_COST_MODEL-controlled regions (T6) + forward taint of the values they define to cost sinks; audited split-accumulator regions frozen by their set of value operations",
